@@ -640,12 +640,17 @@ class Item:
         self._no_splice_yet()
         b, o, e = self._loop_span(fn_name, ordinal)
         hdr = self.text[b:o]
-        m = re.match(r'(\s*)for \((\w+), (\w+)\) in (.*)\.enumerate\(\)\s*$', hdr, re.S)
+        m = re.match(r'(\s*)for \((\w+), (\w+|\(\w+, \w+\))\) in (.*)\.enumerate\(\)\s*$', hdr, re.S)
         if not m:
             raise ExtractError('%s: R12 loop #%d is not an enumerate loop: %s' % (self.name, ordinal, hdr.strip()))
         ind, i, x, expr = m.groups()
-        new_hdr = '%slet mut %s: usize = 0;\n%sfor %s in %s ' % (ind, counter, ind, x, expr)
         body_ins = '\n%s    let %s = %s;\n%s    %s += 1;' % (ind, i, counter, ind, counter)
+        if x.startswith('('):
+            # the element is a pair taken apart by the pattern: `for (i, (a, b)) in ..` -> `for __e in ..  { let a = &__e.0; let b = &__e.1; .. }`
+            a_, b_ = re.match(r'\((\w+), (\w+)\)', x).groups()
+            body_ins += '\n%s    let %s = &__e.0;\n%s    let %s = &__e.1;' % (ind, a_, ind, b_)
+            x = '__e'
+        new_hdr = '%slet mut %s: usize = 0;\n%sfor %s in %s ' % (ind, counter, ind, x, expr)
         self.text = self.text[:b] + new_hdr + '{' + body_ins + self.text[o + 1:]
         self._log('R12', 'enumerate loop #%d in %s -> counter %s' % (ordinal, fn_name, counter))
         return self
